@@ -233,6 +233,31 @@ theorem cleanup_all_or_nothing_partial (l : Listing) (installDir : Path) (dataPa
     · exact List.mem_cons_of_mem _ h1
     · simp at h1; simp [h1]
 
+/-- the spelling of a path as a string -/
+def pathStr (p : Path) : Str := (cl!"/").intercalate p
+
+def pInstall : Path := [cl!"node", cl!"install", cl!"elasticsearch-1.2.3"]
+def pSibling : Path := [cl!"node", cl!"install", cl!"elasticsearch-1.2.3-data"]
+
+/-- "below" is ancestry of *paths* (component lists), not prefix of *strings*: a sibling whose
+    spelling extends the installation directory's is not below it. -/
+theorem string_prefix_is_not_ancestor :
+    ∃ i d : Path, (pathStr i).isPrefixOf (pathStr d) = true ∧ ¬ i <+: d :=
+  ⟨pInstall, pSibling, by decide, by decide⟩
+
+/-- **cleanup_removes_string_prefix_sibling** (an instance of `cleanup_all_or_nothing_partial`): a
+    data path is removed whatever its spelling has in common with the installation directory's —
+    in particular when it is a sibling such as `…/elasticsearch-1.2.3-data` next to
+    `…/elasticsearch-1.2.3`, which a string-prefix test would mistake for "inside the installation". -/
+theorem cleanup_removes_string_prefix_sibling (l : Listing) (installDir dataPath : Path)
+    (_hs : (pathStr installDir).isPrefixOf (pathStr dataPath) = true)
+    (hi : Clearable l installDir) (hd : Clearable l dataPath) :
+    ∀ e ∈ cleanup false installDir [dataPath] l, ¬ dataPath <+: e.1 ∧ ¬ installDir <+: e.1 := by
+  have h := (cleanup_all_or_nothing_partial l installDir [dataPath]
+    (by intro d hd'; simp at hd'; rcases hd' with e | e <;> subst e <;> assumption)).1
+  intro e he
+  exact ⟨h e he dataPath (by simp), h e he installDir (by simp)⟩
+
 /-- whatever the kinds: cleanup never adds or changes entries, and never touches anything outside
     the installation directory and the data paths -/
 theorem cleanup_only_removes_below (preserve : Bool) (l : Listing) (installDir : Path) (dataPaths : List Path) :
@@ -298,6 +323,11 @@ example : cleanup false [cl!"r", cl!"install"] [[cl!"d"]]
     [([cl!"r"], .dir), ([cl!"r", cl!"install"], .dir), ([cl!"r", cl!"install", cl!"f"], .file), ([cl!"d"], .dir),
      ([cl!"d", cl!"x"], .link), ([cl!"keep"], .file)] = [([cl!"r"], .dir), ([cl!"keep"], .file)] := by decide
 example : Clearable [([cl!"d"], .dir), ([cl!"d", cl!"x"], .link)] [cl!"d"] := Or.inl (by decide)
+/-- the string-prefix sibling and its content are removed, an unrelated neighbour stays -/
+example : cleanup false pInstall [pSibling]
+    [([cl!"node"], .dir), ([cl!"node", cl!"install"], .dir), (pInstall, .dir), (pInstall ++ [cl!"bin"], .dir), (pSibling, .dir),
+     (pSibling ++ [cl!"segments_1"], .file), ([cl!"node", cl!"install", cl!"other"], .dir)]
+    = [([cl!"node"], .dir), ([cl!"node", cl!"install"], .dir), ([cl!"node", cl!"install", cl!"other"], .dir)] := by decide
 example : (deleteConfig ⟨[([cl!"config", cl!"e.yml"], [1]), ([cl!"bin", cl!"es"], [2])], [[cl!"config"], [cl!"bin"]]⟩).toOption
     = some ⟨[([cl!"bin", cl!"es"], [2])], [[cl!"bin"]]⟩ := by decide
 
